@@ -80,7 +80,9 @@ func c12(c *Ctx) {
 		}
 	}
 	if ns := c.fn(pkgComposition, "NewCompositionRevisionSpec"); ns != nil {
-		conv := cfgx.Calls(ns, func(ci ssa.CallInstruction) bool { return strings.HasSuffix(cfgx.CalleeName(ci), "RevisionSpecConverter).ToRevisionSpec") })
+		conv := cfgx.Calls(ns, func(ci ssa.CallInstruction) bool {
+			return strings.HasSuffix(cfgx.CalleeName(ci), "RevisionSpecConverter).ToRevisionSpec")
+		})
 		good := len(conv) == 1
 		nStores := 0
 		for _, b := range ns.Blocks {
